@@ -21,6 +21,13 @@ CLAIMED["C17"] = (
     "step as unbounded solver integers; z3 proves the window specification, periodicity and agreement on every path.",
     "n <= 4 (quick) / n <= 6 (thorough) cycle elements; durations >= 1, offset >= 0; colours concrete per position; "
     "integer modulo by the symbolic total encoded with quotient/remainder axioms", "2/C17")
+CLAIMED["C05"] = (
+    "The real translate_rotate code of geometry.transform, every shape class and every state class (exact, region- and "
+    "interval-valued) is executed on symbolic coordinates, translations and angles; z3 (nonlinear real arithmetic) proves "
+    "that every stored point becomes R(a)(p+t) and every orientation th+a (mod 2pi) for all angles in [-2pi,2pi], using the "
+    "same cos/sin symbols in code and oracle.",
+    "floats as reals, tolerance 1e-6 on |coordinates|<=1e3; cos/sin axiomatised (unit circle, Taylor enclosures, sign facts, "
+    "angle sums); polygons from a small concrete family at a symbolic offset; shapely replaced by shapely-lite", "2/C05")
 NOT_YET = {}
 
 props = [json.loads(l) for l in open(os.path.join(ROOT, "properties.jsonl"))]
